@@ -106,7 +106,11 @@ class InsecureHomeKitProtocol(asyncio.Protocol):
         self.transport = transport
 
     def connection_lost(self, exception: Exception) -> None:
-        self.connection._connection_lost(exception)
+        current = self.connection.protocol
+        if current is None or current is self:
+            # Only tear down the connection state if it still refers to us:
+            # the loss of an abandoned socket must not close its successor.
+            self.connection._connection_lost(exception)
         self._cancel_pending_requests()
 
     def _handle_timeout(self, fut: asyncio.Future[Any]) -> None:
